@@ -1738,6 +1738,11 @@ class Interp:
             return True
         types = h.type.elts if isinstance(h.type, ast.Tuple) else [h.type]
         for t in types:
+            if isinstance(t, ast.Subscript):
+                # `except Cls[T]`: a subscripted generic is not a class; python raises TypeError when it
+                # tries to match an exception against it (probed natively on every run)
+                self.ctx.trusted.add("model:`except Cls[T]` raises TypeError when an exception reaches the clause")
+                raise PyRaise("TypeError", "catching classes that do not inherit from BaseException is not allowed")
             name = self.exc_class_name(t, fr)
             if isinstance(e.cls, str):
                 if exc_is_subclass(e.cls, name, self.ctx.extra_exc):
